@@ -30,6 +30,12 @@ pub struct Program {
     /// (k = index into `nodes`), value `v` is re-bound to itself through `.tracked()`.
     /// Only applied to values that are already tracked results (a semantic no-op).
     pub retrack: Vec<(usize, usize)>,
+    /// operand uses (node index k, operand position) that go through a temporary
+    /// `.clone().untracked()` of the operand: the edge carries no gradient although the array is tracked
+    pub frozen: Vec<(usize, usize)>,
+    /// values whose user handle is dropped right after its last use as an operand (right after its
+    /// creation when it is never used): the node then lives on only inside the graph
+    pub dropped: Vec<usize>,
 }
 
 impl Program {
@@ -45,11 +51,21 @@ impl Program {
             s.push_str(&format!("v{}={};", i, fmt_dims(&l.dims)));
         }
         for (i, n) in self.nodes.iter().enumerate() {
-            let a: Vec<String> = n.args.iter().map(|a| format!("v{}", a)).collect();
+            let a: Vec<String> = n
+                .args
+                .iter()
+                .enumerate()
+                .map(|(pos, a)| if self.frozen.contains(&(i, pos)) { format!("v{}.clone().untracked()", a) } else { format!("v{}", a) })
+                .collect();
             s.push_str(&format!("v{}={}({});", self.nl() + i, n.op.name(), a.join(",")));
             for (k, v) in &self.retrack {
                 if *k == i {
                     s.push_str(&format!("v{}=v{}.tracked();", v, v));
+                }
+            }
+            for v in &self.dropped {
+                if self.drop_point(*v) == Some(i) {
+                    s.push_str(&format!("drop(v{});", v));
                 }
             }
         }
@@ -58,11 +74,29 @@ impl Program {
     /// tracked flag of every value: leaves from the mask, results iff some operand is tracked
     pub fn tracked(&self, mask: &[bool]) -> Vec<bool> {
         let mut t = mask.to_vec();
-        for n in &self.nodes {
-            let any = n.args.iter().any(|&a| t[a]);
+        for (k, n) in self.nodes.iter().enumerate() {
+            let any = n.args.iter().enumerate().any(|(pos, &a)| t[a] && !self.frozen.contains(&(k, pos)));
             t.push(any);
         }
         t
+    }
+    /// index of the node after whose construction the handle of `v` is dropped (if it is in `dropped`)
+    pub fn drop_point(&self, v: usize) -> Option<usize> {
+        let last = self.nodes.iter().enumerate().filter(|(_, n)| n.args.contains(&v)).map(|(k, _)| k).max();
+        match last {
+            Some(k) => Some(k),
+            None => {
+                if v >= self.nl() {
+                    Some(v - self.nl())
+                } else {
+                    Some(0)
+                }
+            }
+        }
+    }
+    /// does the edge (node k, operand pos) carry gradients?
+    pub fn edge_tracked(&self, t: &[bool], k: usize, pos: usize) -> bool {
+        t[self.nodes[k].args[pos]] && !self.frozen.contains(&(k, pos))
     }
     /// values reachable from `root` over tracked edges (including root itself)
     pub fn reached(&self, mask: &[bool], root: usize) -> Vec<bool> {
@@ -73,8 +107,9 @@ impl Program {
         while v >= self.nl() {
             // a node without tracked operands keeps no graph
             if r[v] && t[v] {
-                for &a in &self.nodes[v - self.nl()].args {
-                    if t[a] {
+                let k = v - self.nl();
+                for (pos, &a) in self.nodes[k].args.iter().enumerate() {
+                    if self.edge_tracked(&t, k, pos) {
                         r[a] = true;
                     }
                 }
@@ -112,7 +147,8 @@ pub fn eval_ref(
         let stripped: Vec<T> = n
             .args
             .iter()
-            .map(|&a| if t[a] { vals[a].clone() } else { vals[a].strip() })
+            .enumerate()
+            .map(|(pos, &a)| if p.edge_tracked(&t, k, pos) { vals[a].clone() } else { vals[a].strip() })
             .collect();
         let refs: Vec<&T> = stripped.iter().collect();
         let mut r = apply_ref(&n.op, &refs)?;
@@ -205,7 +241,13 @@ pub fn exec_impl(p: &Program, mask: &[bool]) -> Vec<Array> {
     }
     for (k, n) in p.nodes.iter().enumerate() {
         let r = {
-            let refs: Vec<&Array> = n.args.iter().map(|&a| &vals[a]).collect();
+            let temps: Vec<Option<Array>> = n
+                .args
+                .iter()
+                .enumerate()
+                .map(|(pos, &a)| if p.frozen.contains(&(k, pos)) { Some(vals[a].clone().untracked()) } else { None })
+                .collect();
+            let refs: Vec<&Array> = n.args.iter().enumerate().map(|(pos, &a)| temps[pos].as_ref().unwrap_or(&vals[a])).collect();
             apply_impl(&n.op, &refs, p.nl() + k)
         };
         vals.push(r);
@@ -214,6 +256,12 @@ pub fn exec_impl(p: &Program, mask: &[bool]) -> Vec<Array> {
                 let dummy = Array::from(vec![0.0 as corgi::numbers::Float]);
                 let h = std::mem::replace(&mut vals[*v], dummy);
                 vals[*v] = h.tracked();
+            }
+        }
+        for v in &p.dropped {
+            if p.drop_point(*v) == Some(k) && *v <= p.nl() + k {
+                // the user's handle goes away; a placeholder keeps the slot
+                vals[*v] = Array::from(vec![0.0 as corgi::numbers::Float]);
             }
         }
     }
